@@ -38,11 +38,14 @@ ASSUMPTIONS = {"*": ["which inconsistent min/max/default combinations must be re
 # hasher -> cheap cost range for generated settings
 COST = {"sha256_crypt": (1000, 1300), "sha512_crypt": (1000, 1300), "bcrypt": (4, 6), "bcrypt_sha256": (4, 5), "pbkdf2_sha256": (1, 50),
         "pbkdf2_sha1": (1, 50), "sha1_crypt": (1, 50), "phpass": (7, 10), "scrypt": (1, 4), "bsdi_crypt": (1, 99),
-        "django_pbkdf2_sha256": (1, 50), "ldap_sha256_crypt": (1000, 1300), "django_bcrypt": (4, 6), "pbkdf2_sha512": (1, 30)}
+        "django_pbkdf2_sha256": (1, 50), "ldap_sha256_crypt": (1000, 1300), "django_bcrypt": (4, 6), "pbkdf2_sha512": (1, 30),
+        "fshp": (1, 50)}
 SALTED = {"md5_crypt": "chars", "apr_md5_crypt": "chars", "sha256_crypt": "chars", "sha512_crypt": "chars", "sha1_crypt": "chars",
           "pbkdf2_sha256": "bytes", "pbkdf2_sha1": "bytes", "pbkdf2_sha512": "bytes", "ldap_salted_sha1": "bytes",
           "django_pbkdf2_sha256": "chars", "django_salted_sha1": "chars", "scrypt": "bytes", "bcrypt": "fixed", "des_crypt": "fixed",
-          "bsdi_crypt": "fixed", "phpass": "fixed", "bcrypt_sha256": "fixed"}
+          "bsdi_crypt": "fixed", "phpass": "fixed", "bcrypt_sha256": "fixed", "fshp": "bytes"}
+# algorithm-variant settings: hasher -> {keyword: {accepted spelling: value the hash must carry}}; anything else must be refused
+FSHP_V = {0: 0, 1: 1, 2: 2, 3: 3, "0": 0, "1": 1, "2": 2, "3": 3, "sha1": 0, "sha256": 1, "sha384": 2, "sha512": 3}
 PALETTE = sorted(set(COST) | set(SALTED) | {"ldap_md5_crypt", "unix_disabled", "hex_md5", "mysql41"})
 IDENTS = {"bcrypt": ["2a", "2b", "2y", "2", "$2b$", "9z"], "phpass": ["P", "H", "$P$", "Q"], "django_bcrypt": ["2a", "2b"]}
 TRUNC = {"bcrypt": 72, "des_crypt": 8, "django_bcrypt": 72}  # hasher -> size limit in bytes
@@ -89,6 +92,8 @@ def _gen_settings(rng, name):
         kw["ident"] = rng.choice(IDENTS[name])
     if name == "bcrypt_sha256" and rng.random() < 0.4:
         kw["version"] = rng.choice([1, 2, 2, 3])
+    if name == "fshp" and rng.random() < 0.6:
+        kw["variant"] = rng.choice([0, 0, 1, 2, 3, "0", "2", "sha1", "sha384", "sha512", 4, "md5"])
     if name == "scrypt" and rng.random() < 0.4:
         kw[rng.choice(["block_size", "parallelism"])] = rng.choice([1, 2, 8, 0, 2 ** 31])
     if name in ("bcrypt", "des_crypt", "django_bcrypt") and rng.random() < 0.3:
@@ -198,6 +203,7 @@ class _Node:
         self.vary = 0
         self.salt_size = None
         self.ident = None
+        self.variant = {}  # algorithm-variant settings in force (fshp variant, bcrypt_sha256 version, scrypt block_size / parallelism)
         self.trunc = None  # truncation policy (hashers with a size limit): True = refuse over-long passwords
         self.known = True  # False: settings were inconsistent -> only the hard limits are judged
         self.dirty = False  # attribute written directly by its owner: model no longer speaks about costs
@@ -275,6 +281,8 @@ class _W:
         c = _Node(None, base, parent)
         c.lo, c.hi, c.d, c.vary, c.salt_size, c.ident, c.known = parent.lo, parent.hi, parent.d, parent.vary, parent.salt_size, parent.ident, parent.known
         c.dirty = parent.dirty
+        c.variant = dict(parent.variant)
+        c.variant_unknown = getattr(parent, "variant_unknown", False)
         c.trunc = parent.trunc
         c.expensive = False
         verdict = "ok" if not parent.dirty else "either"
@@ -367,9 +375,26 @@ class _W:
             if kw["version"] not in (1, 2):
                 return "must-raise", c
             verdict = "either" if verdict == "ok" and kw["version"] == 1 else verdict  # v1 + ident combinations: not modelled
+            c.variant["version"] = kw["version"]
         if "block_size" in kw or "parallelism" in kw:
             verdict = "either" if verdict == "ok" else verdict
             c.known = False  # scrypt's own update check and memory limits depend on these: not modelled
+            for k in ("block_size", "parallelism"):
+                if k in kw:
+                    # if the setting is accepted, hashes must carry it (relaxed: a value below the hard minimum 1 is clamped to it;
+                    # the upper limits depend on each other and are not modelled)
+                    if kw[k] > 1024:
+                        c.variant.pop(k, None)
+                        c.variant_unknown = True
+                    else:
+                        c.variant[k] = max(1, kw[k]) if relaxed else kw[k]
+        if "variant" in kw:
+            if base != "fshp":
+                return "either", c
+            v = kw["variant"]
+            if isinstance(v, bool) or v not in FSHP_V:
+                return "must-raise", c
+            c.variant["variant"] = FSHP_V[v]
         if "marker" in kw:
             if kw["marker"] not in ("!", "*", "!!"):
                 return ("must-raise" if kw["marker"] == "x" else "either"), c
@@ -415,6 +440,20 @@ class _W:
             if ex is not None:
                 ctx.check(len(ex[2]) == n.salt_size, "C09", "salt-size-differs-from-settings",
                           lambda: f"{where}: {base} salt_size {n.salt_size}: hash {h!r} has a salt of {len(ex[2])}", hasher=base)
+        if base in ("fshp", "bcrypt_sha256", "scrypt") and not n.dirty:
+            ex = extract(h, only=(base,))
+            ctx.check(ex is not None, "C09", "cost-unreadable", f"{where}: {h!r}", hasher=base)
+            if base == "scrypt":
+                carried = {"block_size": ex[1][1], "parallelism": ex[1][2]}
+            else:
+                carried = {"variant" if base == "fshp" else "version": ex[1][0]}
+            default = {"variant": 1, "version": 2, "block_size": 8, "parallelism": 1}
+            for k, got in carried.items():
+                if getattr(n, "variant_unknown", False):
+                    continue
+                want = n.variant.get(k, default[k])
+                ctx.check(got == want, "C09", "variant-differs-from-settings",
+                          lambda: f"{where}: {base} configured {k}={want!r} (settings in force {n.variant}): hash {h!r} carries {got!r}", hasher=base, setting=k)
         if n.ident and base in ("bcrypt", "phpass"):
             pre = "$" + n.ident + "$"
             ctx.check(h.startswith(pre), "C09", "ident-differs-from-settings", f"{where}: ident {n.ident}: {h!r}", hasher=base)
@@ -471,6 +510,15 @@ class _W:
                 return False
             cap = COST[n.base][1] + 2 if n.base in ("bcrypt", "bcrypt_sha256", "django_bcrypt", "scrypt", "phpass") else 20000
             top = max(x for x in (n.d, n.hi or 0) if x is not None)
+            # budget guard only (never an oracle): what the real hasher would actually spend -- inconsistent settings the model
+            # does not follow (known=False) may have pushed its window far above the modelled one
+            for a in ("default_rounds", "min_desired_rounds"):
+                try:
+                    v = getattr(n.H, a, None)
+                except Exception:
+                    v = None
+                if isinstance(v, int):
+                    top = max(top, v)
             if n.vary:
                 top = int(top * 2) + 3 if n.base not in ("bcrypt", "bcrypt_sha256", "django_bcrypt", "scrypt", "phpass") else top + 3
             return top <= cap and not n.dirty
